@@ -14,7 +14,7 @@ import (
 // (2) the race detector, (3) liveness.
 
 func (w *Worker) genC04(rc *simapi.RunConfig) {
-	if rc.Index%5 == 4 {
+	if rc.Index%3 == 2 {
 		w.genC04Analyzer(rc)
 		return
 	}
